@@ -14,6 +14,7 @@ CONSTANTS
   RecheckUnderLock = TRUE
   GuardedConn = TRUE
   PerCycleWG = TRUE
+  SubscribeMayFail = FALSE
   Script <- MCScriptL
 PROPERTIES ShutdownReturns ServeReturns AcceptedRuns
 CHECK_DEADLOCK FALSE
